@@ -34,6 +34,10 @@ fn main() {
         std::panic::set_hook(Box::new(|_| {}));
     }
     let code = match args[1].as_str() {
+        "replay" if args.len() < 3 => {
+            eprintln!("usage: qmc replay <replay file>");
+            2
+        }
         "replay" => props::replay(&args[2]),
         "selftest" => props::selftest(),
         "c14-worker" => c14::worker(&args[2..]),
